@@ -74,32 +74,35 @@ def v_rules(schema: Schema, rep: Report):
         ok = ok and bool(apps) and all(c.func.attr == "append" for c in apps)
         rep.check("V-R2", f"{qn}:in-argument-order", ok, "list members are not appended one by one in argument order" if not ok else "", f"{rel}:{fn.lineno}")
 
-    rep.rule("V-R4", "Element.__set_name__ records the attribute name; __set__ stores under that name on the instance; __get__ reads the same slot")
+    rep.rule("V-R4", "Element.__set_name__ records the attribute name; __set__ stores under that name on the instance; __get__ reads the same slot (locals expanded, every returning path)")
+    from .paths import return_paths
+
     el = p.get_class(TYPES, "Element")
     trel = p.module(TYPES).relpath
     sn = el.own_func("__set_name__")
-    ok = sn is not None and any(isinstance(s, ast.Assign) and text(s.targets[0]) == "self.name" and text(s.value) == params_of(sn)[2] for s in own_statements(sn))
+    ok = sn is not None and any(isinstance(s_, ast.Assign) and text(s_.targets[0]) == "self.name" and Expander(sn).t(s_.value) == params_of(sn)[2] for s_ in own_statements(sn))
     rep.check("V-R4", "Element.__set_name__", ok, "the descriptor does not record the attribute name it is bound to" if not ok else "", f"{trel}:{sn.lineno if sn else 0}")
     g = el.own_func("__get__")
     gp = params_of(g) if g else []
-    rets = [r for r in own_nodes(g) if isinstance(r, ast.Return) and r.value is not None] if g else []
-    ok = bool(rets) and all(text(r.value) == f"{gp[1]}.__dict__[self.name]" for r in rets)
-    rep.check("V-R4", "Element.__get__", ok, "the descriptor does not read the slot it writes" if not ok else "", f"{trel}:{g.lineno if g else 0}")
+    rps, _ = return_paths(g, expander=Expander(g)) if g else ([], None)
+    vals = {rtxt for _p, rtxt, sc in rps if not (rtxt == "None" and sc.get(f"{gp[1]} is None") is True)}
+    ok = bool(rps) and vals == {f"{gp[1]}.__dict__[self.name]"}
+    rep.check("V-R4", "Element.__get__", ok, f"the descriptor reads {sorted(vals)}, not the slot it writes" if not ok else "", f"{trel}:{g.lineno if g else 0}")
 
-    rep.rule("V-R5", "the boolean read table is exactly {'Y': True, 'N': False} and the str reader returns self.mapping[value], rejecting any other token")
+    rep.rule("V-R5", "the boolean read table is exactly {'Y': True, 'N': False}; every returning path of the str reader returns self.mapping[value] and every other path raises")
     scal, _ = scalar_types(p)
     b = scal["Bool"]
     m = b.lookup("mapping")
     rep.check("V-R5", "Bool.mapping", m == {"Y": True, "N": False}, f"Bool.mapping is {m!r}; OFX booleans are exactly Y and N", tloc(p, b.node))
     h = D.family(b, "convert").get("str")
     ok = False
+    why = "no str reader"
     if h is not None:
-        rets = [r for r in own_nodes(h.fn) if isinstance(r, ast.Return) and r.value is not None]
-        ok = bool(rets) and all(text(r.value) == f"self.mapping[{h.value_param()}]" for r in rets)
-        # KeyError handler raises
-        trys = [s for s in own_statements(h.fn) if isinstance(s, ast.Try)]
-        ok = ok and all(all(any(isinstance(x, ast.Raise) for x in hh.body) for hh in t.handlers) for t in trys)
-    rep.check("V-R5", "Bool.convert[str]", ok, "the boolean reader is not a strict lookup in self.mapping" if not ok else "", tloc(p, h.fn if h else b.node))
+        rps, pths = h.return_paths()
+        vals = {rtxt for _p, rtxt, _s in rps}
+        ok = vals == {f"self.mapping[{h.value_param()}]"}
+        why = f"the boolean reader returns {sorted(vals)}; expected a strict lookup self.mapping[{h.value_param()}] (anything else must raise)"
+    rep.check("V-R5", "Bool.convert[str]", ok, why if not ok else "", tloc(p, h.fn if h else b.node))
 
     rep.rule("V-R6", "the character-data decoder is a single-pass decoder covering &amp; &lt; &gt; &nbsp; &apos; &quot; (saxutils.unescape with an explicit table for the last three, or html.unescape); a hand-written replace chain must decode &amp; last")
     s_ = scal["String"]
@@ -107,52 +110,73 @@ def v_rules(schema: Schema, rep: Report):
     if h is None:
         raise AnalysisError("String str reader not found")
     vp = h.value_param()
-    dec_calls = [c for c in own_nodes(h.fn) if isinstance(c, ast.Call) and (dotted(c.func) or "").split(".")[-1] in ("unescape",)]
-    repl = [c for c in ast.walk(h.fn) if isinstance(c, ast.Call) and isinstance(c.func, ast.Attribute) and c.func.attr == "replace"]
+    hfn = h.ffn
+    hex_ = Expander(hfn)
+    dec_calls = [c for c in own_nodes(hfn) if isinstance(c, ast.Call) and (dotted(c.func) or "").split(".")[-1] in ("unescape",)]
+    repl = [c for c in ast.walk(hfn) if isinstance(c, ast.Call) and isinstance(c.func, ast.Attribute) and c.func.attr == "replace"]
     if dec_calls:
         for c in dec_calls:
             d = dotted(c.func) or ""
-            if "saxutils" in d or isinstance(p.resolve(TYPES, d.split(".")[0]), object) and d.startswith("saxutils"):
+            if d.startswith("saxutils") or d.endswith("saxutils.unescape"):
                 tbl = c.args[1] if len(c.args) > 1 else next((k.value for k in c.keywords if k.arg == "entities"), None)
+                tbl = hex_.x(tbl) if tbl is not None else None
                 got = {}
                 if isinstance(tbl, ast.Dict):
                     got = {k.value: v.value for k, v in zip(tbl.keys, tbl.values) if isinstance(k, ast.Constant) and isinstance(v, ast.Constant)}
+                elif tbl is not None:
+                    tv = p.ev(p.module(TYPES), tbl, {})
+                    if isinstance(tv, dict):
+                        got = tv
+                    else:
+                        rep.note(f"V-R6 undecided: entity table {text(tbl)} is not a literal")
+                        continue
                 want = {"&nbsp;": " ", "&apos;": "'", "&quot;": '"'}
                 missing = {k: v for k, v in want.items() if got.get(k) != v}
                 wrong = {k: v for k, v in got.items() if k in ("&amp;", "&lt;", "&gt;")}
-                rep.check("V-R6", "String.convert[str]:entity-table", not missing and not wrong, f"entities {sorted(missing)} are not decoded to their characters (table: {got})" if (missing or wrong) else "", tloc(p, c))
+                rep.check("V-R6", "String.convert[str]:entity-table", not missing and not wrong, f"entities {sorted(missing)} are not decoded to their characters (table: {got})" if (missing or wrong) else "", tloc(p, h.fn))
             elif d.startswith("html"):
-                rep.check("V-R6", "String.convert[str]:entity-table", True, "html.unescape", tloc(p, c))
+                rep.check("V-R6", "String.convert[str]:entity-table", True, "html.unescape", tloc(p, h.fn))
             else:
-                raise AnalysisError(f"V-R6: decoder {d} not recognised")
-            ok = c.args and text(c.args[0]) == vp
-            rep.check("V-R6", "String.convert[str]:decodes-the-text", bool(ok), "" if ok else "the decoder is not applied to the element text", tloc(p, c))
-        # result flows to the return
-        rets = [r for r in own_nodes(h.fn) if isinstance(r, ast.Return) and r.value is not None and "enforce_length" in text(r.value)]
-        ok = bool(rets)
-        rep.check("V-R6", "String.convert[str]:returns-decoded", ok, "" if ok else "decoded text is not what is returned", tloc(p, h.fn))
+                rep.note(f"V-R6 undecided: decoder {d} not recognised")
+                continue
+            ok = c.args and hex_.t(c.args[0]) == vp
+            rep.check("V-R6", "String.convert[str]:decodes-the-text", bool(ok), "" if ok else "the decoder is not applied to the element text", tloc(p, h.fn))
     elif repl:
-        # a replace chain / loop: find the table order
-        order = _replace_order(p, h.fn)
+        order = _replace_order(p, hfn)
         if order is None:
-            raise AnalysisError("V-R6: hand-written entity decoding not understood")
-        six = ["&amp;", "&lt;", "&gt;", "&nbsp;", "&apos;", "&quot;"]
-        missing = [e for e in six if e not in order]
-        amp_last = "&amp;" in order and order.index("&amp;") == len(order) - 1
-        rep.check("V-R6", "String.convert[str]:entity-table", not missing and amp_last, (f"entities {missing} are not decoded; " if missing else "") + ("" if amp_last else f"'&amp;' is decoded before {order[order.index('&amp;') + 1:]}: '&amp;lt;' becomes '<' instead of '&lt;' (double decoding)"), tloc(p, h.fn))
+            rep.note("V-R6 undecided: hand-written entity decoding not understood")
+        else:
+            six = ["&amp;", "&lt;", "&gt;", "&nbsp;", "&apos;", "&quot;"]
+            missing = [e for e in six if e not in order]
+            amp_last = "&amp;" in order and order.index("&amp;") == len(order) - 1
+            rep.check("V-R6", "String.convert[str]:entity-table", not missing and amp_last, (f"entities {missing} are not decoded; " if missing else "") + ("" if amp_last else f"'&amp;' is decoded before {order[order.index('&amp;') + 1:] if '&amp;' in order else order}: '&amp;lt;' becomes '<' instead of '&lt;' (double decoding)"), tloc(p, h.fn))
     else:
         rep.check("V-R6", "String.convert[str]:entity-table", False, "character data is not entity-decoded at all", tloc(p, h.fn))
 
-    rep.rule("V-R7", "the decimal reader accepts both separators: a text that decimal.Decimal rejects is retried with ',' replaced by '.'")
+    rep.rule("V-R7", "the decimal reader accepts both separators: a text that decimal.Decimal rejects (InvalidOperation) is retried with ',' replaced by '.'")
     d_ = scal["Decimal"]
     h = D.family(d_, "convert").get("str")
-    ok = False
+    ok = None
     if h is not None:
-        for t in [s for s in own_statements(h.fn) if isinstance(s, ast.Try)]:
-            body_ok = any(isinstance(s, ast.Assign) and text(s.value) == f"decimal.Decimal({h.value_param()})" for s in t.body)
-            hand_ok = any(isinstance(s, ast.Assign) and text(s.value).replace('"', "'") == f"decimal.Decimal({h.value_param()}.replace(',', '.'))" for hh in t.handlers for s in hh.body)
-            ok = ok or (body_ok and hand_ok)
-    rep.check("V-R7", "Decimal.convert[str]:both-separators", ok, "',' as decimal separator is not accepted (or '.' no longer is)" if not ok else "", tloc(p, h.fn if h else d_.node))
+        hfn = h.ffn
+        hx = Expander(hfn)
+        vp = h.value_param()
+        for t in [s2 for s2 in own_statements(hfn) if isinstance(s2, ast.Try)]:
+            body_ok = any(isinstance(s2, ast.Assign) and hx.t(s2.value) == f"decimal.Decimal({vp})" for s2 in t.body)
+            hand = [hx.t(s2.value).replace('"', "'") for hh in t.handlers for s2 in ast.walk(hh) if isinstance(s2, ast.Assign)]
+            hand_ok = any(v == f"decimal.Decimal({vp}.replace(',', '.'))" for v in hand)
+            if body_ok and hand_ok:
+                ok = True
+            elif body_ok and ok is None:
+                ok = False
+        if ok is None:
+            # no try at all: is ',' handled some other way?
+            if any(isinstance(c, ast.Call) and isinstance(c.func, ast.Attribute) and c.func.attr == "replace" and c.args and isinstance(c.args[0], ast.Constant) and c.args[0].value == "," for c in ast.walk(hfn)):
+                rep.note("V-R7 undecided: ',' is replaced but not in the try/except form")
+            else:
+                ok = False
+    if ok is not None:
+        rep.check("V-R7", "Decimal.convert[str]:both-separators", ok, "',' as decimal separator is not accepted (or '.' no longer is)" if not ok else "", tloc(p, h.fn if h else d_.node))
 
 
 def _replace_order(p: Project, fn) -> List[str]:
